@@ -29,6 +29,8 @@ pub struct GenOpts {
     pub decorate: bool,
     /// percent of histories with non-zero video start
     pub nonzero_start_pct: u64,
+    /// start the valid stream just before a power-of-two tick boundary (2^31, 2^32, 2^33, 2^53, 2^63, 2^64)
+    pub extreme_start_pct: u64,
     /// audio start offset relative to the first video frame: allow positive offsets
     pub audio_offset: bool,
     /// percent of histories with no finish at all
@@ -55,6 +57,7 @@ impl Default for GenOpts {
             big_frames: false,
             decorate: true,
             nonzero_start_pct: 30,
+            extreme_start_pct: 3,
             audio_offset: true,
             no_finish_pct: 0,
             hostile_cfg_pct: 0,
@@ -86,7 +89,26 @@ pub fn hostile_ts(r: &mut Rng, prev: Option<f64>) -> f64 {
     }
 }
 
+/// Names the container itself uses: a title (or any other caller-controlled byte string) that
+/// contains them must not confuse anything that locates boxes.
+pub const FOURCCS: [&str; 28] = [
+    "stco", "stsz", "stsc", "stts", "ctts", "stss", "stsd", "stbl", "trak", "moov", "mdat", "udta", "meta", "ilst", "data", "trun", "tfdt", "tfhd", "traf", "moof", "mdhd", "mvhd", "tkhd", "hdlr", "avcC", "hvcC", "esds", "co64",
+];
+
 pub fn titles(r: &mut Rng) -> String {
+    if r.chance(1, 8) {
+        let mut s = String::new();
+        for _ in 0..r.range(1, 3) {
+            for _ in 0..r.below(14) {
+                s.push((b'a' + r.below(26) as u8) as char);
+            }
+            s.push_str(*r.pick(&FOURCCS[..]));
+        }
+        for _ in 0..r.below(30) {
+            s.push((b'a' + r.below(26) as u8) as char);
+        }
+        return s;
+    }
     match r.below(8) {
         0 => String::new(),
         1 => "Test".to_string(),
@@ -148,7 +170,7 @@ pub fn gen_cfg(r: &mut Rng, o: &GenOpts) -> Cfg {
     let (title, ctime, lang) = if meta {
         (
             if r.chance(1, 2) { Some(titles(r)) } else { None },
-            if r.chance(1, 2) { Some(match r.below(4) { 0 => 0, 1 => r.below(4_102_444_800), 2 => r.below(253_402_300_800), _ => 1_700_000_000 }) } else { None },
+            if r.chance(1, 2) { Some(match r.below(6) { 0 => 0, 1 => r.below(4_102_444_800), 2 => r.below(253_402_300_800), 3 => 253_402_300_800 + r.below(1 << 40), 4 => *r.pick(&[253_402_300_799u64, 253_402_300_800, 1 << 53, u64::MAX / 2, u64::MAX]), _ => 1_700_000_000 }) } else { None },
             if r.chance(1, 2) { Some(langs(r)) } else { None },
         )
     } else {
@@ -170,7 +192,8 @@ pub fn gen_cfg(r: &mut Rng, o: &GenOpts) -> Cfg {
         title,
         ctime,
         lang,
-        path: 0,
+        // builder aliases (set_video_track / set_audio_track) are as good as video() / audio()
+        path: if r.chance(1, 4) { r.below(4) as u8 } else { 0 },
     }
 }
 
@@ -250,7 +273,11 @@ fn gen_history_inner(r: &mut Rng, o: &GenOpts, cfg: Cfg) -> History {
         2 => 2,
         _ => r.range(1, o.max_video.max(1) as u64) as usize,
     };
-    let start = if r.chance(o.nonzero_start_pct, 100) {
+    let start = if r.chance(o.extreme_start_pct, 100) {
+        // the stream crosses (or sits next to) a boundary at which 32/53/63/64-bit tick arithmetic changes
+        let edge = 2f64.powi(*r.pick(&[31, 32, 33, 53, 63, 63, 64])) / 90_000.0;
+        edge - r.f64_unit() * (nv.max(1) as f64) / 15.0
+    } else if r.chance(o.nonzero_start_pct, 100) {
         match r.below(4) {
             0 => 1.0,
             1 => r.f64_unit() * 10.0,
@@ -260,7 +287,30 @@ fn gen_history_inner(r: &mut Rng, o: &GenOpts, cfg: Cfg) -> History {
     } else {
         0.0
     };
-    let vt = video_timeline(r, nv, reorder, start);
+    let mut vt = video_timeline(r, nv, reorder, start);
+    if !reorder && start == 0.0 && nv >= 3 && r.chance(o.extreme_start_pct, 200) {
+        // a sample duration, or the whole track duration, whose big-endian bytes spell a box name
+        let magic = u32::from_be_bytes(r.pick(&FOURCCS[..]).as_bytes().try_into().unwrap()) as u64;
+        let t = |k: u64| k as f64 / 90_000.0;
+        let mut ticks: Vec<u64> = Vec::with_capacity(nv);
+        if r.chance(1, 2) {
+            let at = 1 + r.usize_below(nv - 1);
+            let mut cur = 0u64;
+            for i in 0..nv {
+                if i > 0 {
+                    cur += if i == at { magic } else { 3000 };
+                }
+                ticks.push(cur);
+            }
+        } else {
+            // durations a, d, d (the last one repeats its predecessor): a + 2d = magic
+            let a = if magic % 2 == 1 { 1 } else { 2 };
+            let d = (magic - a) / 2;
+            ticks.extend_from_slice(&[0, a, a + d]);
+        }
+        vt = ticks.iter().map(|&k| (t(k), t(k))).collect();
+    }
+    let nv = vt.len();
     let audio = cfg.audio_effective().cloned();
     // video ops
     let mut vops: Vec<Op> = Vec::new();
